@@ -51,7 +51,8 @@ def unionOp (inputs : List (List (List α))) : List (List α) := inputs.flatten
 
 /-- one chunk of `DistinctOperator::next`: returns (seen', emitted rows, stoppedEarly).
 When the builder (capacity `cap`) fills up the operator returns at once — whatever is left of
-the input chunk is never looked at again. -/
+the input chunk is never looked at again (since the repair the capacity is at least the size of
+the input chunk, so that only happens at its last row). -/
 def distinctChunk [DecidableEq κ] (key : α → κ) (cap : Nat) :
     List κ → List α → List α → List κ × List α
   | seen, acc, [] => (seen, acc)
@@ -66,7 +67,8 @@ def distinctChunk [DecidableEq κ] (key : α → κ) (cap : Nat) :
 def distinctOp [DecidableEq κ] (key : α → κ) (cap : Nat) : List κ → List (List α) → List (List α)
   | _, [] => []
   | seen, c :: cs =>
-    let (seen', out) := distinctChunk key cap seen [] c
+    -- the builder has room for the whole input chunk: `chunk.row_count().max(2048)`
+    let (seen', out) := distinctChunk key (max cap c.length) seen [] c
     if out.length > 0 then out :: distinctOp key cap seen' cs else distinctOp key cap seen' cs
 
 end Grafeo.Ops
